@@ -161,6 +161,37 @@ func checkC20(p *Prog, r *Report) {
 		}
 	}
 
+	// ---------------- D1b: lock order (all module code) ----------------
+	{
+		var fns []*ssa.Function
+		for _, fn := range p.ModFuncs {
+			if !p.IsGenerated(fn) && !InPkgs(fn, "types/testsuite") {
+				fns = append(fns, fn)
+			}
+		}
+		edges, nAcq := lockOrderEdges(p, fns)
+		cycles := lockCycles(edges)
+		var ks []string
+		for k := range cycles {
+			ks = append(ks, k)
+		}
+		sort.Strings(ks)
+		for _, k := range ks {
+			r.Fail(kp("LOCK", "order-cycle:"+k), "blocking resources (mutexes, channel semaphores) are acquired in one global order", "x/*",
+				"acquisition-order cycle: "+cycles[k]+" — two goroutines can each hold one of these and wait for the other (with a counting semaphore: once all its slots are taken by holders waiting for the mutex)")
+		}
+		r.Count("lock-acquisition-sites", nAcq)
+		r.Floor("lock-acquisition-sites(control)", nAcq, 3)
+		if len(ks) == 0 {
+			r.OK(kp("LOCK", "order-cycle#none"), "blocking resources (mutexes, channel semaphores) are acquired in one global order", "x/*",
+				fmt.Sprintf("%d functions, %d acquisition sites, %d order edges between different resources, no cycle", len(fns), nAcq, len(edges)))
+		}
+		lockOrderControl(p, r, kp("LOCK", "order-cycle#control"))
+	}
+
+	// ---------------- D1c: pooled memory does not escape ----------------
+	checkPooledMemory(p, r, "C20")
+
 	// ---------------- D2: queries are readers ----------------
 	queries := p.AllHandlers("QueryServer")
 	r.Floor("query-handlers", len(queries), 12)
